@@ -14,7 +14,7 @@ RefSim(original) per cycle.
 import copy
 import hashlib
 
-from .. import gen, shrink, world, transforms
+from .. import gen, shrink, world, transforms, common
 from ..common import Violation, HarnessError, mask
 from ..netlist import Netlist, script_shape
 from ..replica import Live
@@ -54,6 +54,7 @@ def gen_case(streams, tier):
         'merge': g.random() < 0.5, 'update_wb': g.random() < 0.5,
         'wb': g.choice(['dut', 'other', 'dut_implicit']),
         'sched': world.gen_sched(streams, with_iter=False),
+        'refused_first': g.random() < 0.25,
         'again': [[g.random() < 0.5, g.random() < 0.5, g.choice(['dut', 'other', 'dut_implicit'])]
                   for _ in range(g.choice([0, 0, 0, 1, 1, 2]))],
     }
@@ -92,6 +93,18 @@ def _sitting(case, res, b, merge, update_wb, wb, sitting):
         pyrtl.set_working_block(other, no_sanity_check=True)
     else:
         pyrtl.set_working_block(orig, no_sanity_check=True)
+    if sitting == 0 and case.get('refused_first'):
+        # synthesize is first asked for a malformed design (a declared wire connected to
+        # nothing) and refuses; the caller goes on in the working block he had
+        bad = pyrtl.Block()
+        pyrtl.WireVector(3, 'dangling', block=bad)
+        for kw in ({'block': bad}, {'block': bad, 'update_working_block': False}):
+            try:
+                pyrtl.synthesize(**kw)
+            except (pyrtl.PyrtlError, pyrtl.PyrtlInternalError):
+                res.faults.hit('synthesize_refused_first')
+            else:
+                raise common.Inconclusive('synthesize accepted a malformed design')
     wb_before = pyrtl.working_block()
     tags0 = ['merge' if merge else 'unmerged'] + (['sitting:again'] if sitting else [])
     if any(not m.get('rom') for m in script['mems']):
@@ -306,6 +319,10 @@ def candidates(case):
     if case.get('again'):
         c = copy.deepcopy(case)
         c['again'] = case['again'][:-1]
+        yield c
+    if case.get('refused_first'):
+        c = copy.deepcopy(case)
+        c['refused_first'] = False
         yield c
     for s in shrink.script_candidates(case['script']):
         c = copy.deepcopy(case)
